@@ -43,6 +43,8 @@ class Interp:
         self.root_builder = None
         self.trace: list[str] = []
         self.share_partial = False
+        self.late_args = True                 # see st_call
+        self.late_linked = 0
         self._shared_ops: dict[str, object] = {}
 
     # ------------------------------------------------------------------ helpers
@@ -193,7 +195,20 @@ class Interp:
     def st_call(self, b, st):
         f = self.nodes[st["f"]]
         self.fault("call", st, b=b, f=f)
-        n = b.call(f, *self.wires(st["args"]), **self._inst(st))
+        ws = self.wires(st["args"])
+        k = len(ws)
+        if self.late_args and ws and sum(map(ord, st["id"])) % 4 == 0:
+            # the call is made with a prefix of its arguments; the last one or two (when they come from this region,
+            # so that no order edge is needed) are linked afterwards through the store: where the static function
+            # edge sits must not depend on how many value ports are connected at the time
+            k2 = k
+            while k2 > max(0, k - 2) and b.hugr[ws[k2 - 1].out_port().node].parent == b.parent_node:
+                k2 -= 1
+            k = k2
+        n = b.call(f, *ws[:k], **self._inst(st))
+        for i in range(k, len(ws)):
+            b.hugr.add_link(ws[i].out_port(), n.inp(i))
+            self.late_linked += 1
         self.nodes[st["id"]] = n
         self.handles.append(("call", n, len(st["outs"])))
         for i, wid in enumerate(st["outs"]):
